@@ -533,6 +533,7 @@ func flowScenario(s tcpx.Spec) *engine.Scenario {
 
 func init() {
 	hk.Register("C20", func(ctx *engine.Ctx) {
+		mmdbAdapter(ctx)
 		for i, s := range flowSpecs() {
 			if ctx.Mine(int64(i)) {
 				ctx.RunCase("exposure-flows", "E", flowScenario(s), s, nil)
@@ -597,6 +598,10 @@ func init() {
 			}
 			rp.Choices = nil
 			return engine.ReplayCase("exposure-flows", flowScenario(s), rp)
+		}
+		if rp.Unit == "mmdb-adapter" {
+			replayMMDB(sub, rp.Input)
+			return sub.Res.Findings
 		}
 		if rp.Unit == "loc-table" {
 			var lc locCase
